@@ -231,6 +231,11 @@ fn signature_cases(run: &mut Run, ctx: &Ctx, rng: &mut Rng, thorough: bool) -> V
             all.push(s1);
             count += 1;
             for (j, b_) in slots.iter().enumerate() {
+                // arity 2: exhaustive in the thorough tier, every fourth pair (varying with the
+                // return type) in the quick tier
+                if !thorough && (i + j + ret.map(|r| r + 1).unwrap_or(0)) % 4 != 0 {
+                    continue;
+                }
                 let s2 = build_sig(
                     ret,
                     &[*a, *b_],
@@ -243,7 +248,7 @@ fn signature_cases(run: &mut Run, ctx: &Ctx, rng: &mut Rng, thorough: bool) -> V
     }
     // arity 3: the whole scope has 5 * 32^3 = 163840 signatures; exhaustive in the thorough tier
     // would be ~15 min of Coq, so both tiers sample it (seeded), the thorough one ten times denser
-    let n3 = if thorough { 20000 } else { 2000 };
+    let n3 = if thorough { 20000 } else { 700 };
     for _ in 0..n3 {
         let ret = rets[rng.below(5)];
         let sl: Vec<(PT, bool)> = (0..3).map(|_| slots[rng.below(32)]).collect();
@@ -254,7 +259,7 @@ fn signature_cases(run: &mut Run, ctx: &Ctx, rng: &mut Rng, thorough: bool) -> V
     }
     // beyond the scope: arity 4..6, extreme lengths
     let lens = [0u64, 1, 2, 9, 10, 255, 1000, 4294967296, u64::MAX - 1, u64::MAX];
-    for _ in 0..(if thorough { 3000 } else { 400 }) {
+    for _ in 0..(if thorough { 3000 } else { 250 }) {
         let ret = rets[rng.below(5)];
         let k = rng.range(1, 6);
         let sl: Vec<(PT, bool)> = (0..k)
@@ -670,7 +675,7 @@ fn good_arg(rng: &mut Rng, t: PT, mutable: bool) -> GA {
     }
 }
 
-fn call_cases(run: &mut Run, ctx: &Ctx, rng: &mut Rng, count: usize) {
+fn call_cases(run: &mut Run, ctx: &Ctx, rng: &mut Rng, count: usize, thorough: bool) {
     let slots = slot_types();
     let pool = arg_pool();
     // lengths 1..3 for fixed vectors so that o3 (OCTET[3]) can match
@@ -697,7 +702,8 @@ fn call_cases(run: &mut Run, ctx: &Ctx, rng: &mut Rng, count: usize) {
     }
     // return + one slot: every pair over a reduced pool
     let small: Vec<GA> = vec![GA::Ident(0), GA::Ident(2), GA::Ident(5), GA::Ref(1, 1), GA::Ref(3, 0), GA::Imm(1.0, 0.0)];
-    for r in [2usize, 3] {
+    let rets: &[usize] = if thorough { &[0, 1, 2, 3] } else { &[3] };
+    for r in rets.iter().copied() {
         for (t, m) in &slots {
             let sig = build_sig(Some(r), &[(*t, *m)], &["p"]);
             for a in &small {
@@ -710,7 +716,22 @@ fn call_cases(run: &mut Run, ctx: &Ctx, rng: &mut Rng, count: usize) {
     // random multi-slot calls, mostly valid
     for _ in 0..count {
         let k = rng.range(1, 4);
-        let sl: Vec<(PT, bool)> = (0..k).map(|_| slots3[rng.below(slots3.len())]).collect();
+        let satisfiable = |t: PT| match t {
+            PT::Fixed(s, n) => REGIONS.iter().any(|r| r.1 == s && r.2 == n),
+            _ => true,
+        };
+        let sl: Vec<(PT, bool)> = (0..k)
+            .map(|_| {
+                let mut c = slots3[rng.below(slots3.len())];
+                // prefer slots that some declared region can satisfy (two more draws)
+                for _ in 0..2 {
+                    if !satisfiable(c.0) {
+                        c = slots3[rng.below(slots3.len())];
+                    }
+                }
+                c
+            })
+            .collect();
         let ret = if rng.chance(1, 2) { Some(rng.below(4)) } else { None };
         let names: Vec<&str> = (0..k).map(|_| GOOD_NAMES[rng.below(GOOD_NAMES.len())]).collect();
         let sig = build_sig(ret, &sl, &names);
@@ -779,17 +800,18 @@ fn main() {
     name_cases(&mut run);
     let sigs = signature_cases(&mut run, &ctx, &mut rng, args.thorough());
     let n_sig = run.evaluations;
-    text_cases(&mut run, &mut rng, &sigs, if args.thorough() { 12000 } else { 1500 });
+    text_cases(&mut run, &mut rng, &sigs, if args.thorough() { 12000 } else { 1000 });
     let n_text = run.evaluations - n_sig;
-    call_cases(&mut run, &ctx, &mut rng, if args.thorough() { 30000 } else { 3000 });
+    call_cases(&mut run, &ctx, &mut rng, if args.thorough() { 30000 } else { 2000 }, args.thorough());
     let n_call = run.evaluations - n_sig - n_text;
     if mutant != 0 {
         run.note(&format!("QV_MUTANT={mutant}: observed outputs were perturbed on purpose"));
     }
     run.finish(
-        "names: every reserved word and case/suffix variants, plus identifier shapes. signatures: exhaustive for arity \
-         0..2 over return type (none or 4 scalars) x 4 scalar types x {scalar, fixed[1], fixed[2], variable} x \
-         mutability (5285 signatures); arity 3 (163840 signatures in scope) is sampled with the seed in both tiers; \
+        "names: every reserved word and case/suffix variants, plus identifier shapes. signatures over return type (none \
+         or 4 scalars) x 4 scalar types x {scalar, fixed[1], fixed[2], variable} x mutability: exhaustive for arity \
+         0..1 (165), arity 2 exhaustive in the thorough tier (5120) and every fourth pair in the quick tier, arity 3 \
+         (163840 signatures in scope) sampled with the seed in both tiers; \
          plus arity 4..6 with extreme lengths; each is printed by the real to_quil and parsed back by the real \
          from_str (a subset also through PRAGMA EXTERN in a parsed program). text: fixed malformed strings plus \
          seeded mutations of printed signatures. calls: 5 declared regions (REAL[1], REAL[2], INTEGER[2], BIT[1], \
